@@ -116,6 +116,7 @@ def run(rep, tier):
     rep.rules.pop("C05.a", None)
     rep.rules.pop("C05.cuda", None)
     rep.rules.pop("C05.f", None)
+    rep.rules.pop("C05.g", None)
     c05.run_conversions(rep, tier)
     c17.declare(rep)
     c17.run(rep, tier)
